@@ -3,6 +3,7 @@ C08 — A live name changes owner only with its current owner's consent, who is 
 Live = registered ∧ height ≤ Expires.  Names are identified as the chain does (store key "name.tld").
 -/
 import Canine.Proofs.Rns
+import Canine.Proofs.RnsRuns
 namespace Canine.Rns
 open Bank
 
@@ -451,5 +452,320 @@ example : CanonOK staleState := by
 example : ((step staleState 5 (.transfer "BOB" "foo.jkl" "foo.jkl" "dave")).bind
     (fun s => (AMap.get s.names "foo.jkl").map (·.value))) = some "dave" := by decide
 example : SameAcct staleState "BOB" "bob" := ⟨"bob", by decide, by decide⟩
+
+end Canine.Rns
+
+/-! ## C08 over whole executions
+
+Runs, the ghost (`ListingOrigin`, `ghostStep`, `ghostRun`) and the listing invariant
+(`ListingInv`, `CreatedByOwner`) are in `Proofs/RnsRuns.lean`.  A position in a run is a split
+`evs = pre ++ (h, op) :: post`: `run s₀ pre` is the state immediately before the event,
+`ghostRun s₀ g₀ pre` the ghost at that moment.  None of the statements of this section needs the
+heights of the run to be ordered; they hold for every list of events, in particular for every run
+(`Mono evs`).  The address table is the same in every state of a run (`acct_run`), so "the account
+a string denotes" is written with the initial state `s₀`. -/
+namespace Canine.Rns
+open Bank
+
+/-- `CanonOK` is the idempotence the run helpers are stated with -/
+theorem CanonOK_iff_CanonIdem (s : State) : CanonOK s ↔ CanonIdem s := Iff.rfl
+
+/-- **The listing invariant along runs**: from a state where every stored listing has a recorded
+origin that created it as owner of the then live name (e.g. a state without listings,
+`listingInv_of_no_listings`), every stored listing of every later state has one.  (Only `List`
+writes a listing — `step_forsale_frame`, the run form of `C08_listing_created_only_by_its_owner` —
+and it writes the signer string, which it has just compared with the name's owner.) -/
+theorem C08_listing_invariant_along_runs (s0 : State) (g0 : Ghost) (hinv : ListingInv s0 g0)
+    (evs : List (Int × Op)) : ListingInv (run s0 evs) (ghostRun s0 g0 evs) :=
+  listingInv_run hinv evs
+
+/-- **No message but `List` writes a listing** (let alone its `owner` field), at any position of
+any run: a listing stored under `k` immediately after an event was stored there, identical,
+immediately before — or the event is a successful `List` for `k` signed by the string the listing
+names as owner, which was at that moment the owner string of the live name the key refers to. -/
+theorem C08_only_list_writes_a_listing_along_runs
+    (s0 : State) (pre : List (Int × Op)) (h : Int) (op : Op) (k : String) (l : Listing)
+    (hl : AMap.get (run s0 (pre ++ [(h, op)])).forsale k = some l) :
+    AMap.get (run s0 pre).forsale k = some l ∨
+    (∃ c raw pr p key w, op = .list c raw k pr p ∧ (step (run s0 pre) h op).isSome ∧
+        AMap.get (run s0 pre).forsale k = none ∧ l.owner = c ∧
+        keyOf k = some key ∧ AMap.get (run s0 pre).names key = some w ∧ w.value = c ∧ h ≤ w.expires) := by
+  rw [run_snoc] at hl
+  unfold stepT at hl
+  cases hs : step (run s0 pre) h op with
+  | none => left; simpa [hs] using hl
+  | some s' =>
+    rw [hs] at hl
+    rcases step_forsale_frame hs hl with hold | ⟨c, raw, pr, p, key, w, hop, hnone, hlis, hkey, hw, hown, hlive⟩
+    · left; exact hold
+    · right; exact ⟨c, raw, pr, p, key, w, hop, by simp, hnone, by rw [hlis], hkey, hw, hown, hlive⟩
+
+/-- the listed price left the account `buyer` and all of it reached the account `seller`
+(`seller ≠ buyer`: the owner account really changes; the module account has no key and never buys) -/
+def PaidInFull (s s' : State) (sale : Listing) (seller buyer : String) : Prop :=
+  ∃ dn a coins, sale.price = some (dn, a) ∧ newCoins dn a = some coins ∧
+    (seller ≠ buyer → buyer ≠ s.moduleAcc →
+      (∀ d, bal s'.bank seller d = bal s.bank seller d + amt d coins) ∧
+      (∀ d, bal s'.bank buyer d = bal s.bank buyer d - amt d coins))
+
+/-- A purchase of the name `key` (record `w` immediately before) by the signer string `c` through
+the listing stored under `n`: the listing carries the owner's string, its recorded origin says it was
+created by the account `seller`, which is the account owning the name immediately before the
+purchase (and owned it, live, when it listed it); the new record carries the buyer string, data
+reset, nothing else touched; `seller` is paid the full price by the buyer's account `buyer`. -/
+def PurchasedFromOwner (s : State) (g : Ghost) (s' : State) (c n key : String) (w : NameRec)
+    (seller buyer : String) : Prop :=
+  ∃ sale o, AMap.get s.forsale n = some sale ∧ sale.owner = w.value ∧
+    AMap.get g n = some o ∧ CreatedByOwner s sale o ∧ o.account = some seller ∧
+    acct s w.value = some seller ∧ acct s c = some buyer ∧
+    AMap.get s'.names key = some { w with value := c, data := "{}" } ∧
+    PaidInFull s s' sale seller buyer
+
+/-- one purchase, in a state satisfying the listing invariant -/
+theorem purchase_from_owner {s s' : State} {g : Ghost} {h : Int} {c raw n : String}
+    (hinv : ListingInv s g) (hm : s.moduleAcc ∈ s.blocked)
+    (hbuy : step s h (.buy c raw n) = some s') :
+    ∃ key w seller buyer, keyOf n = some key ∧ AMap.get s.names key = some w ∧ h ≤ w.expires ∧
+      PurchasedFromOwner s g s' c n key w seller buyer := by
+  obtain ⟨cc, seller, sale, nm, tld, w, dn, a, coins, hcc, hseller, hsale, hnt, hw, hlive, hso, -, hpr, hcoins,
+    hw', hpay⟩ := C08_buy_pays_previous_owner s s' h c raw n hm hbuy
+  obtain ⟨o, ho, hcr⟩ := hinv n sale hsale
+  refine ⟨nameKey nm tld, w, seller, cc, keyOf_of hnt rfl, hw, hlive, sale, o, hsale, hso, ho, hcr, ?_,
+    hseller, hcc, hw', dn, a, coins, hpr, hcoins, hpay⟩
+  obtain ⟨-, ⟨a', ha1, ha2⟩, -⟩ := hcr
+  rw [hso, hseller] at ha2
+  rw [ha1, ha2]
+
+/-- **C08 along runs — the listing clause.**  In every run from a state satisfying the listing
+invariant (e.g. one without listings), every successful `buy` — at any position of the run — is
+the purchase of a live name through a stored listing that was created by the account owning the
+name immediately before the purchase (`PurchasedFromOwner`: the recorded origin of the listing is
+that account, which owned the live name when it listed it), and whenever the owner account changes
+(`seller ≠ buyer`) that account receives the full price.  So ownership never moves through a
+listing created by anybody else, in particular not through a listing left behind by a previous
+owner (`C08_stale_listing_never_sells_along_runs`). -/
+theorem C08_purchase_only_through_owner_created_listing_along_runs
+    (s0 : State) (g0 : Ghost) (evs pre post : List (Int × Op)) (h : Int) (c raw n : String) (s' : State)
+    (hsplit : evs = pre ++ (h, .buy c raw n) :: post)
+    (hinv : ListingInv s0 g0) (hm : s0.moduleAcc ∈ s0.blocked)
+    (hbuy : step (run s0 pre) h (.buy c raw n) = some s') :
+    run s0 evs = run s' post ∧
+    ∃ key w seller buyer, keyOf n = some key ∧
+      AMap.get (run s0 pre).names key = some w ∧ h ≤ w.expires ∧
+      PurchasedFromOwner (run s0 pre) (ghostRun s0 g0 pre) s' c n key w seller buyer := by
+  refine ⟨?_, ?_⟩
+  · rw [hsplit, run_append]; simp [run, stepT, hbuy]
+  · have hm' : (run s0 pre).moduleAcc ∈ (run s0 pre).blocked := by
+      rw [(run_cfg s0 pre).1, (run_cfg s0 pre).2.2.1]; exact hm
+    exact purchase_from_owner (listingInv_run hinv pre) hm' hbuy
+
+/-- **A stale listing never sells the name**: at any position of a run, if the account that created
+the stored listing `n` (its recorded origin) is not the account that owns the name now, `buy`
+through that listing fails — whoever signs it, whatever the height. -/
+theorem C08_stale_listing_never_sells_along_runs
+    (s0 : State) (g0 : Ghost) (pre : List (Int × Op)) (h : Int) (c raw n : String)
+    (hinv : ListingInv s0 g0) (o : ListingOrigin) (key : String) (w : NameRec)
+    (ho : AMap.get (ghostRun s0 g0 pre) n = some o)
+    (hkey : keyOf n = some key) (hw : AMap.get (run s0 pre).names key = some w)
+    (hstale : o.account ≠ acct s0 w.value) :
+    step (run s0 pre) h (.buy c raw n) = none := by
+  cases hs : step (run s0 pre) h (.buy c raw n) with
+  | none => rfl
+  | some s' =>
+    exfalso
+    obtain ⟨cc, -, -, hh⟩ := step_some hs
+    simp only [handle, buy, bind, Option.bind_eq_some_iff, req_eq_some] at hh
+    obtain ⟨sale, hsale, ⟨nm, tld⟩, hnt, w2, hw2, _, -, _, -, _, hown, -⟩ := hh
+    have hk := keyOf_of hnt rfl
+    rw [hkey] at hk; cases hk
+    rw [hw] at hw2; cases hw2
+    obtain ⟨o', ho', -, ⟨a, ha1, ha2⟩, -⟩ := listingInv_run hinv pre n sale hsale
+    rw [ho] at ho'; cases ho'
+    apply hstale
+    rw [ha1, ← ha2, ← hown, acct_run]
+
+/-- **C08 along runs — the frame clause.**  Take any run, any position in it (`evs = pre ++ (h, op)
+:: post`) and any name `key` that is live immediately before the event (record `w`,
+`h ≤ w.expires`).  Immediately after the event the name is still registered (record `w'`, expiry
+not smaller), and
+
+* if its owner *account* differs, the event is a `transfer` or an `acceptBid` of that name signed
+  by a spelling of the owner's account, or a `buy` of that name through a listing created by the
+  owner's account, which is paid the full price (`PurchasedFromOwner`, with `seller ≠ buyer`);
+* if anything at all in the record differs (owner string, data, sub-records, expiry, lock), the
+  event is signed by a spelling of the owner's account — or it is such a purchase, which changes
+  the owner string and resets the data and touches nothing else.
+
+Messages signed by anyone else — previous owners, holders of stale listings — leave the record
+exactly as it was.  The model's one quirk, as in the Go handler (`name.Value == sender` compares
+strings): the owner can "buy" its own listing signing with another spelling of its address; the
+owner string changes, the owner account does not, the price goes from the account to itself (see
+the `example` below). -/
+theorem C08_owner_changes_only_by_consent_along_runs
+    (s0 : State) (g0 : Ghost) (evs pre post : List (Int × Op)) (h : Int) (op : Op)
+    (hsplit : evs = pre ++ (h, op) :: post)
+    (hcan : CanonOK s0) (hinv : ListingInv s0 g0) (hm : s0.moduleAcc ∈ s0.blocked)
+    (key : String) (w : NameRec)
+    (hw : AMap.get (run s0 pre).names key = some w) (hlive : h ≤ w.expires) :
+    run s0 evs = run (run s0 (pre ++ [(h, op)])) post ∧
+    ∃ w', AMap.get (run s0 (pre ++ [(h, op)])).names key = some w' ∧ w.expires ≤ w'.expires ∧
+      (acct s0 w'.value ≠ acct s0 w.value →
+        (∃ c raw n r, op = .transfer c raw n r ∧ keyOf n = some key ∧ SameAcct s0 c w.value) ∨
+        (∃ c raw n b, op = .acceptBid c raw n b ∧ keyOf n = some key ∧ SameAcct s0 c w.value) ∨
+        (∃ c raw n seller buyer, op = .buy c raw n ∧ keyOf n = some key ∧ seller ≠ buyer ∧
+          PurchasedFromOwner (run s0 pre) (ghostRun s0 g0 pre) (run s0 (pre ++ [(h, op)])) c n key w
+            seller buyer)) ∧
+      (w' ≠ w →
+        SameAcct s0 op.creator w.value ∨
+        (∃ c raw n seller buyer, op = .buy c raw n ∧ keyOf n = some key ∧
+          w' = { w with value := c, data := "{}" } ∧
+          PurchasedFromOwner (run s0 pre) (ghostRun s0 g0 pre) (run s0 (pre ++ [(h, op)])) c n key w
+            seller buyer)) := by
+  refine ⟨by rw [hsplit, ← run_append]; simp, ?_⟩
+  rw [run_snoc]
+  have hcan' : CanonOK (run s0 pre) := canonIdem_run hcan pre
+  have hacct : ∀ x, acct (run s0 pre) x = acct s0 x := acct_run s0 pre
+  have hinv' := listingInv_run hinv pre
+  have hm' : (run s0 pre).moduleAcc ∈ (run s0 pre).blocked := by
+    rw [(run_cfg s0 pre).1, (run_cfg s0 pre).2.2.1]; exact hm
+  generalize run s0 pre = s at *
+  generalize ghostRun s0 g0 pre = g at *
+  -- a signer whose canonical address is the recorded owner string is a spelling of the owner's account
+  have hsame : ∀ c, acct s c = some w.value → SameAcct s0 c w.value := by
+    intro c hc
+    exact ⟨w.value, by rw [← hacct]; exact hc, by rw [← hacct]; exact hcan' _ _ hc⟩
+  unfold stepT
+  cases hs : step s h op with
+  | none =>
+    simp only [Option.getD_none]
+    exact ⟨w, hw, Int.le_refl _, fun hne => absurd rfl hne, fun hne => absurd rfl hne⟩
+  | some s' =>
+    simp only [Option.getD_some]
+    rcases step_live_name hw hlive hs with h1 | ⟨c, raw, n, sale, hop, hkey, hsale, hso, hcne, h2⟩ |
+        ⟨c, raw, n, r, hop, hkey, hc, h3⟩ | ⟨c, raw, n, b, bd, hop, hkey, hc, -, h4⟩ | ⟨w', h5, hv, hle, hsig⟩
+    · exact ⟨w, h1, Int.le_refl _, fun hne => absurd rfl hne, fun hne => absurd rfl hne⟩
+    · subst hop
+      obtain ⟨key', w2, seller, buyer, hkey', hw2, -, hp⟩ := purchase_from_owner hinv' hm' hs
+      rw [hkey] at hkey'; cases hkey'
+      rw [hw] at hw2; cases hw2
+      refine ⟨_, h2, Int.le_refl _, ?_, ?_⟩
+      · intro hne
+        right; right
+        refine ⟨c, raw, n, seller, buyer, rfl, hkey, ?_, hp⟩
+        obtain ⟨_, _, -, -, -, -, -, hsl, hby, -⟩ := hp
+        intro e
+        apply hne
+        show acct s0 c = acct s0 w.value
+        rw [← hacct c, ← hacct w.value, hsl, hby, e]
+      · intro _
+        right
+        exact ⟨c, raw, n, seller, buyer, rfl, hkey, rfl, hp⟩
+    · subst hop
+      refine ⟨_, h3, Int.le_refl _, fun _ => Or.inl ⟨c, raw, n, r, rfl, hkey, hsame c hc⟩,
+        fun _ => Or.inl (hsame c hc)⟩
+    · subst hop
+      refine ⟨_, h4, Int.le_refl _, fun _ => Or.inr (Or.inl ⟨c, raw, n, b, rfl, hkey, hsame c hc⟩),
+        fun _ => Or.inl (hsame c hc)⟩
+    · refine ⟨w', h5, hle, fun hne => absurd (by rw [hv]) hne, fun _ => Or.inl ?_⟩
+      rcases hsig with hc | hc
+      · exact hsame _ hc
+      · obtain ⟨cc, -, hcc, -⟩ := step_some hs
+        exact ⟨cc, by rw [← hacct]; exact hcc, by rw [← hacct, ← hc]; exact hcc⟩
+
+end Canine.Rns
+
+/-! ### Non-vacuity on a concrete run -/
+namespace Canine.Rns
+open Bank
+
+/-- alice owns the live name foo.jkl; nothing is listed -/
+def runState : State :=
+  { names := [("foo.jkl", { name := "foo", tld := "jkl", expires := 100, value := "alice", data := "{}", locked := 0, subs := [] })],
+    forsale := [], bids := [], inits := [], primary := [],
+    bank := [(("carol", "ujkl"), 1000)], blocked := ["rnsmod"], moduleAcc := "rnsmod", polAcc := "pol",
+    canon := [("alice", "alice"), ("bob", "bob"), ("carol", "carol"), ("BOB", "bob")] }
+
+/-- alice lists, transfers to bob; carol tries the stale listing; bob lists (under the only key left
+to him — `GetNameAndTLD` never looks at the separator character, and the key "foo.jkl" is still
+occupied by alice's listing, which nobody can remove any more); carol buys from bob. -/
+def staleRun : List (Int × Op) :=
+  [(1, .list "alice" "foo.jkl" "foo.jkl" "777ujkl" (some ("ujkl", 777))),
+   (2, .transfer "alice" "foo.jkl" "foo.jkl" "bob"),
+   (3, .buy "carol" "foo.jkl" "foo.jkl"),
+   (4, .list "bob" "foo-jkl" "foo-jkl" "500ujkl" (some ("ujkl", 500))),
+   (5, .buy "carol" "foo-jkl" "foo-jkl")]
+
+example : Mono staleRun := by decide
+example : ListingInv runState [] := listingInv_of_no_listings _ _ rfl
+example : runState.moduleAcc ∈ runState.blocked := by decide
+
+/-- after the transfer alice's listing is stale: created by account alice, name owned by bob … -/
+example : ((AMap.get (ghostRun runState [] (staleRun.take 2)) "foo.jkl").map (·.account),
+           (AMap.get (run runState (staleRun.take 2)).names "foo.jkl").map (·.value))
+    = (some (some "alice"), some "bob") := by decide
+/-- … and carol's purchase through it fails (as `C08_stale_listing_never_sells_along_runs` says): nobody is paid, bob keeps the name -/
+example : step (run runState (staleRun.take 2)) 3 (.buy "carol" "foo.jkl" "foo.jkl") = none := by decide
+example : step (run runState (staleRun.take 2)) 3 (.buy "carol" "foo.jkl" "foo.jkl") = none :=
+  C08_stale_listing_never_sells_along_runs runState [] (staleRun.take 2) 3 "carol" "foo.jkl" "foo.jkl"
+    (listingInv_of_no_listings _ _ rfl)
+    { signer := "alice", account := some "alice", height := 1,
+      nameThen := some { name := "foo", tld := "jkl", expires := 100, value := "alice", data := "{}", locked := 0, subs := [] } }
+    "foo.jkl" { name := "foo", tld := "jkl", expires := 100, value := "bob", data := "{}", locked := 0, subs := [] }
+    (by decide) (by decide) (by decide) (by decide)
+/-- the purchase through bob's own listing goes through: the hypotheses of
+`C08_purchase_only_through_owner_created_listing_along_runs` are met at position 5 of the run … -/
+example : (step (run runState (staleRun.take 4)) 5 (.buy "carol" "foo-jkl" "foo-jkl")).isSome = true := by decide
+/-- … and at the end carol owns the name, bob (the owner immediately before) has the full 500, alice nothing -/
+example : ((AMap.get (run runState staleRun).names "foo.jkl").map (·.value),
+           bal (run runState staleRun).bank "bob" "ujkl", bal (run runState staleRun).bank "alice" "ujkl",
+           bal (run runState staleRun).bank "carol" "ujkl", bal (run runState staleRun).bank "rnsmod" "ujkl")
+    = (some "carol", 500, 0, 500, 0) := by decide
+/-- the run theorem instantiated at that position -/
+example : ∃ key w seller buyer, keyOf "foo-jkl" = some key ∧
+    AMap.get (run runState (staleRun.take 4)).names key = some w ∧ (5 : Int) ≤ w.expires ∧
+    PurchasedFromOwner (run runState (staleRun.take 4)) (ghostRun runState [] (staleRun.take 4))
+      (run runState staleRun) "carol" "foo-jkl" key w seller buyer :=
+  (C08_purchase_only_through_owner_created_listing_along_runs runState [] staleRun (staleRun.take 4) [] 5
+    "carol" "foo-jkl" "foo-jkl" (run runState staleRun) rfl (listingInv_of_no_listings _ _ rfl) (by decide)
+    (by decide)).2
+
+/-- the hypotheses of `C08_owner_changes_only_by_consent_along_runs` are met at that position too
+(name live, table idempotent, no listings at the start): the owner account changes from bob's to
+carol's, so the theorem yields the purchase clause -/
+theorem runState_canonOK : CanonOK runState := by
+  intro x y h
+  simp only [acct, runState, AMap.get] at h ⊢
+  repeat' split at h
+  all_goals first | (simp at h; subst h; decide) | (simp at h)
+example : ∃ w', AMap.get (run runState (staleRun.take 4 ++ [(5, .buy "carol" "foo-jkl" "foo-jkl")])).names "foo.jkl" = some w' ∧
+    (100 : Int) ≤ w'.expires ∧ w'.value = "carol" := by
+  obtain ⟨w', hw', hle, -, -⟩ := (C08_owner_changes_only_by_consent_along_runs runState [] staleRun (staleRun.take 4) [] 5
+    (.buy "carol" "foo-jkl" "foo-jkl") rfl runState_canonOK (listingInv_of_no_listings _ _ rfl) (by decide)
+    "foo.jkl" { name := "foo", tld := "jkl", expires := 100, value := "bob", data := "{}", locked := 0, subs := [] }
+    (by decide) (by decide)).2
+  refine ⟨w', hw', hle, ?_⟩
+  have : AMap.get (run runState (staleRun.take 4 ++ [(5, .buy "carol" "foo-jkl" "foo-jkl")])).names "foo.jkl"
+      = some { name := "foo", tld := "jkl", expires := 100, value := "carol", data := "{}", locked := 0, subs := [] } := by decide
+  rw [this] at hw'; cases hw'; rfl
+
+/-- Observation (not part of C08, which is a safety property): the stale listing can never be
+removed — alice's `delist` fails ("This listing has expired": she no longer owns the name), bob's
+`delist` fails ("You do not own this listing"), and bob cannot list the name under its own key
+("Name already listed") — until the name returns to alice. -/
+example : step (run runState (staleRun.take 2)) 3 (.delist "alice" "foo.jkl" "foo.jkl") = none ∧
+    step (run runState (staleRun.take 2)) 3 (.delist "bob" "foo.jkl" "foo.jkl") = none ∧
+    step (run runState (staleRun.take 2)) 3 (.list "bob" "foo.jkl" "foo.jkl" "5ujkl" (some ("ujkl", 5))) = none := by
+  decide
+
+/-- The quirk of `Buy` (string comparison `name.Value == sender`): bob, owner and lister, "buys" his
+own listing signing as "BOB"; the owner string becomes "BOB", the owner account stays bob's, and
+the price goes from bob's account to bob's account. -/
+example :
+    let s0 : State := { runState with bank := [(("bob", "ujkl"), 1000)] }
+    let s1 := run s0 [(2, .transfer "alice" "foo.jkl" "foo.jkl" "bob"),
+                      (4, .list "bob" "foo-jkl" "foo-jkl" "500ujkl" (some ("ujkl", 500))),
+                      (5, .buy "BOB" "foo-jkl" "foo-jkl")]
+    ((AMap.get s1.names "foo.jkl").map (·.value), ((AMap.get s1.names "foo.jkl").bind (fun w => acct s1 w.value)),
+      bal s1.bank "bob" "ujkl", s1.forsale) = (some "BOB", some "bob", 1000, []) := by decide
 
 end Canine.Rns
